@@ -1,32 +1,37 @@
-(* C16 property theorems (statements only; proofs in Proofs.v).
-   STATUS: the row-level theorems are full strength (all rows / all blocks).  The state-level induction
-   (ledger_inv for every op list: g s = sum of contrib over rows s; stop_zero; restartable) is NOT finished:
-   see ledger_balance_partial below -- what is proved is that every row update used by `step` changes the global
-   counters by exactly the change of the row's contribution; lifting this through `upd`/`upd_all` and the
-   well-formedness of live rows is missing.  The OCaml driver checks g s = sum contrib on every enumerated case. *)
+(* C16 property theorems (statements only; proofs in Proofs.v, ProofsInv.v, ProofsState.v).
+   Model: coq/C16/Model.v (resource ledger; ops = mechanism-level events).  Inv, row_wf, quiet, qvec, released are
+   defined in ProofsInv.v / ProofsState.v and repeated in the comments below. *)
 From Coq Require Import List ZArith NArith Bool.
-From LTV.C16 Require Import ParamsGen Model Proofs.
+From LTV.C16 Require Import ParamsGen Model Proofs ProofsInv ProofsState.
 Import ListNotations.
 Open Scope Z_scope.
 
-(* ledger balance of every update of a connected row by a peer message / a library message (partial: row level) *)
-Theorem ledger_balance_partial :
-  (forall m, row_ok (conn_msg_simple m)) /\ (forall m, row_ok (lib_msg_row m)) /\
-  (forall r, ph r = PConn -> fd r = true ->
-     contrib (fst (cleanup_row r)) = snd (cleanup_row r) +v contrib r) /\
-  (forall r, ph r = PHs -> fd r = true ->
-     contrib (fst (destroy_row r)) = snd (destroy_row r) +v contrib r) /\
-  (forall sd r, ph r = PHs -> contrib (fst (to_conn sd r)) = snd (to_conn sd r) +v contrib r).
-Proof.
-  exact (conj ok_conn_msg_simple (conj ok_lib_msg_row
-        (conj (fun r a b => proj1 (ok_cleanup r a b))
-        (conj (fun r a b => proj1 (ok_destroy r a b)) (fun sd r a => proj1 (ok_to_conn sd r a)))))).
-Qed.
-Print Assumptions ledger_balance_partial.
+(* ledger_inv: for ALL op lists every global counter equals the sum of the live rows' contributions
+   (Inv s := g s = csum (rows s) /\ Forall row_wf (rows s); row_wf: only an established connection holds
+   connection-level resources, a live row holds its descriptor, a dead row holds nothing but possibly a PEX slot) *)
+Theorem ledger_inv : forall sd ops, Inv (run sd ops).
+Proof. exact ProofsState.ledger_inv. Qed.
+Print Assumptions ledger_inv.
 
-(* abort_releases_all, connection: after PeerConnectionBase::cleanup from ANY row state the row holds nothing,
-   contributes nothing to any counter, its descriptor was closed exactly once more, its request list is empty and
-   the PeerInfo is disconnected *)
+(* no counter of the code can underflow (they are unsigned in the code, Z in the model) *)
+Theorem counters_nonneg : forall sd ops, Forall (fun x => 0 <= x) (g (run sd ops)).
+Proof. exact ProofsState.counters_nonneg. Qed.
+Print Assumptions counters_nonneg.
+
+(* abort_releases_all: from ANY reachable state, Abort of a live handshake / connection c leaves its row with nothing
+   (released: phase none, descriptor closed and out of the poll set, no choke / PEX / throttle / chunk contribution,
+   request list empty, PeerInfo disconnected, contribution vector zero), the descriptor was closed exactly once more,
+   and for a connection no unfinished block keeps a live transfer of c (the blocks can be requested again) *)
+Theorem abort_releases_all : forall sd ops c r,
+  let s := run sd ops in
+  get_row c (rows s) = Some r -> ph r <> PNone ->
+  let s' := run sd (ops ++ [Abort c]) in
+  (exists r', get_row c (rows s') = Some r' /\ released r' /\ closes r' = closes r + 1) /\
+  (ph r = PConn -> forall b, In b (blocks s') -> fin b = false -> no_live_tr c b = true).
+Proof. exact abort_releases_all_state. Qed.
+Print Assumptions abort_releases_all.
+
+(* row level, any row state (not only reachable ones) *)
 Theorem abort_releases_all_connection : forall r,
   row_zero (fst (cleanup_row r)) = true /\ contrib (fst (cleanup_row r)) = vz /\
   closes (fst (cleanup_row r)) = closes r + 1 /\
@@ -35,25 +40,45 @@ Theorem abort_releases_all_connection : forall r,
 Proof. exact cleanup_row_zero. Qed.
 Print Assumptions abort_releases_all_connection.
 
-(* abort_releases_all, handshake (Handshake::destroy_connection) *)
-Theorem abort_releases_all_handshake : forall r, hs_clean r ->
-  row_zero (fst (destroy_row r)) = true /\ contrib (fst (destroy_row r)) = vz /\
-  closes (fst (destroy_row r)) = closes r + 1 /\
-  pi_c (fst (destroy_row r)) = false /\ pi_h (fst (destroy_row r)) = false.
-Proof. exact destroy_row_zero. Qed.
-Print Assumptions abort_releases_all_handshake.
-
-(* the blocks c was fetching: after the release no unfinished block keeps a live (non-erased) transfer of c *)
 Theorem abort_blocks_released : forall c b, fin b = false -> no_live_tr c (rel_blk c b) = true.
 Proof. exact rel_blk_no_live. Qed.
 Print Assumptions abort_blocks_released.
 
-(* the former leak witness: with a dissimilar transfer the counter now returns to 0 *)
+(* stop_zero: after DownloadMain::stop on an active torrent, from ANY reachable state, every torrent-level counter is
+   zero (qvec: only the handshake-table size, the socket count -- handshakes that have not named a torrent -- and the
+   PEX slot counter may be non-zero); in particular upload_unchoked = download_unchoked = 0, so the internal_error at
+   the end of DownloadMain::stop is unreachable *)
+Theorem stop_zero : forall sd ops,
+  active (run sd ops) = true ->
+  let s' := run sd (ops ++ [Stop]) in
+  qvec (g s') /\ nth 2 (g s') 0 = 0 /\ nth 8 (g s') 0 = 0.
+Proof. exact ProofsState.stop_zero. Qed.
+Print Assumptions stop_zero.
+
+(* restartable: stop + start brings the torrent back active with all torrent-level counters zero, and the ledger
+   invariant keeps holding for every continuation.  (That every block is requestable again after stop is proved per
+   aborted connection in abort_releases_all, not restated for the whole table here.) *)
+Theorem restartable : forall sd ops,
+  active (run sd ops) = true -> opened (run sd ops) = true ->
+  let s' := run sd (ops ++ [Stop; Start]) in
+  active s' = true /\ qvec (g s') /\ Inv s' /\ (forall more, Inv (fold_left step more s')).
+Proof. exact ProofsState.restartable. Qed.
+Print Assumptions restartable.
+
+(* the former leak witness (dissimilar transfer): since 3d23180 the peer's transfer counter returns to 0 *)
 Theorem former_leak_example :
   let s := run false leak_ops in
   rej s = false /\ g s = vz /\ (exists r, get_row 1 (rows s) = Some r /\ row_zero r = true /\ tc r = 0).
 Proof. exact Proofs.former_leak_example. Qed.
 Print Assumptions former_leak_example.
+
+(* non-vacuity: a reachable state with a live connection holding choke slots and a mapped chunk, and its stop *)
+Theorem hypotheses_satisfiable :
+  active (run false ex_ops) = true /\ opened (run false ex_ops) = true /\
+  (exists r, get_row 0 (rows (run false ex_ops)) = Some r /\ ph r = PConn /\ uu r = true /\ du r = true /\ dc r = true) /\
+  nth 2 (g (run false ex_ops)) 0 = 1 /\ nth 8 (g (run false ex_ops)) 0 = 1 /\ nth 17 (g (run false ex_ops)) 0 = 1.
+Proof. exact ex_hyps. Qed.
+Print Assumptions hypotheses_satisfiable.
 
 Theorem params_ok_now :
   Params.c16_hs_part1 = 48%N /\ Params.c16_hs_size = 68%N /\ Params.c16_piece_hdr = 13%N /\ (0 < Params.c16_max_size_pex)%Z.
